@@ -7,7 +7,8 @@ run through the same engine (equal as IEEE values; min/max on non-NaN lanes; NaN
 The SSE2 integer round-trip trunc / floor / ceil (and round, fract, fract_gl built on them) are decided through five stated IEEE facts
 (rules/lift.py F1-F5): the guard constant must lie in [2^23, 2^31] and the adjusted value, which touches x only through comparisons with
 trunc(x), is decided per ordering (x < trunc x, x > trunc x, x = trunc x) - a wrong constant or comparison is a VIOLATION naming the input
-class, an unknown algorithm shape is UNDECIDED and trips the floor.  libm routines are mapped name-to-name, not shown numerically equal to std."""
+class, an unknown algorithm shape is UNDECIDED and trips the floor.  libm routines are mapped name-to-name, not shown numerically equal to std.
+The six comparisons return mask lane i = the primitive comparison of lane i (false on NaN except ne); Sum / Product are left folds (R-FOLD)."""
 import re
 import terms as tm
 import tables
@@ -21,7 +22,7 @@ LEVEL = 'other'
 TECHNIQUE = 'lane-uniformity by substitution + same-named-primitive agreement over rustc MIR on 5-7 backend configurations (abstract interpretation, all inputs)'
 EXPLANATION = ('Structural clause of C01 decided for all inputs: every lane-wise float operation routes lane i of its operands through exactly the '
                'named IEEE primitive into lane i, on every backend (NEON and wasm32 by type-checking their sources against the target and using the '
-               'intrinsic semantics table).  The SSE2 integer round-trip trunc/floor/ceil/round algorithms are decided by an ordering case analysis resting on five stated IEEE facts.  '
+               'intrinsic semantics table).  The SSE2 integer round-trip trunc/floor/ceil/round algorithms are decided by an ordering case analysis resting on five stated IEEE facts; the six comparisons are the primitive comparisons per lane; Sum/Product are left folds of + / *.  '
                'Not decided: numeric equality of the libm routines with std.')
 LEVEL_NOTE = ('Decides the lane schema for all inputs; libm accuracy is not claimed. Trusted: IEEE facts F1-F5 of rules/lift.py, round-via-trunc identity, rustc MIR/layout, intrinsic table, IEEE-exact rewrites, '
               'and the equivalences the property itself grants (-0 == +0, NaN == NaN, min/max on non-NaN lanes).')
